@@ -152,14 +152,20 @@ func (c *FnCtx) enterLoop(bc *blockCtx, li *loopInfo, rr *regionRun) {
 	}
 	// 2. havoc cells stored in the loop
 	before := c.saveScript()
+	var deferredTyping []Val
 	for _, a := range c.loopCells(fr, li) {
 		key := cellKey{fr.id, a}
 		old, ok := bc.st.cells[key]
 		if !ok {
 			continue
 		}
-		nv := c.havocLike(bc.st, old, "h."+a.Comment)
+		// the typing facts of the new value are asserted after the dry run, when it is known
+		// whether the loop allocates: a reference carried around the loop may refer to an object
+		// allocated by an earlier iteration, so it is bounded by the allocation mark *after* the
+		// loop's allocations were accounted for (step 4), not by the mark at the loop's entry
+		nv := c.havocLikeDeferred(bc.st, old, "h."+a.Comment)
 		bc.st.cells[key] = nv
+		deferredTyping = append(deferredTyping, nv)
 	}
 	// range iterators used in the loop
 	for k := range bc.st.ghost {
@@ -269,6 +275,11 @@ func (c *FnCtx) enterLoop(bc *blockCtx, li *loopInfo, rr *regionRun) {
 		c.sc.assert("(>= " + na + " " + bc.st.alloc + ")")
 		bc.st.alloc = na
 	}
+	for _, nv := range deferredTyping {
+		for _, f := range typeFacts(nv, bc.st.alloc) {
+			c.sc.assert(f)
+		}
+	}
 	for _, m := range mods {
 		srt := sorts[m.name]
 		if strings.HasPrefix(m.name, "LK:") {
@@ -367,6 +378,25 @@ func (c *FnCtx) enterLoop(bc *blockCtx, li *loopInfo, rr *regionRun) {
 			c.sc.assert(sImp(bc.reach, t))
 		}
 	}
+}
+
+// havocLikeDeferred is havocLike without the typing facts (the caller asserts them later).
+func (c *FnCtx) havocLikeDeferred(st *State, old Val, prefix string) Val {
+	switch old.K {
+	case KLoc, KPoison, KUnit:
+		return old
+	}
+	sorts := leafSorts(old)
+	ls := make([]string, len(sorts))
+	for i, s := range sorts {
+		ls[i] = c.sc.fresh(prefix, s)
+	}
+	nv, _ := rebuild(old, ls)
+	if nv.K == KFunc {
+		nv.Fn = nil
+		nv.Binds = nil
+	}
+	return nv
 }
 
 // havocLike returns a fresh value with the shape and Go types of old.
